@@ -46,12 +46,79 @@ let items_of (ops : op list) : (config * item list) option =
     (match go false [] rest with Some l -> Some (c, l) | None -> None)
   | _ -> None
 
+(* items with the instants of the clock: B t0, K:dt advances *)
+let titems_of (t0 : int) (ops : op list) : (config * titem list) option =
+  match ops with
+  | OStart c :: rest ->
+    let rec go t started acc = function
+      | [] -> Some (List.rev acc)
+      | (OWrite b | OPlain b) :: r -> go t true (TRec (z_of_int t, b) :: acc) r
+      | OTrigger :: r -> go t started (if started then TTrig (z_of_int t) :: acc else acc) r
+      | OTick dt :: r -> go (t + int_of_z dt) started acc r
+      | (OFlush | OSnap | OStop | OShutdown) :: r -> go t started acc r
+      | _ -> None in
+    (match go t0 false [] rest with Some l -> Some (c, l) | None -> None)
+  | _ -> None
+
+let ts_format_of (c : config) : (tsfmt * bool) option =   (* format, and whether the current file is time-stamp named too *)
+  match c.c_rot with
+  | Some ((_, NTimestamps), _) -> Some (std_fmt, false)
+  | Some ((_, NTimestampsDirect), _) -> Some (std_fmt, true)
+  | Some ((_, NCustom (Some (_ :: _), f)), _) -> Some (f, false)
+  | Some ((_, NCustom (_, f)), _) -> Some (f, true)
+  | _ -> None
+
+let c09_oracle (t0 : int) (off : int) (ann : (string * string) list) (ops : op list) (files : ((bytes * n) * bytes) list) : string =
+  let rec strip t = function
+    | (OExtCreate _ | OExtMkdir _) :: r -> strip t r
+    | OTick dt :: r -> strip (t + int_of_z dt) r
+    | l -> (t, l) in
+  let (tb, ops') = strip t0 ops in
+  match titems_of tb ops' with
+  | None -> "skip shape"
+  | Some (c, items) ->
+    (match c.c_rot with
+     | None -> "skip no-rotation"
+     | Some ((crit, _), _) ->
+       let start = match List.assoc_opt "start" ann, List.assoc_opt "startt" ann with
+         | Some h, Some t -> Some (z_of_int (int_of_string t), bytes_of_hex h)
+         | _ -> None in
+       let zoff = z_of_int off in
+       let contents = family_in_order c files in
+       if not (oracle_C09_partition crit zoff start items contents) then "fail files-are-not-the-period-partition" else
+       (match ts_format_of c with
+        | None -> "pass"
+        | Some (fmt, direct) ->
+          let (a, lim) = crit_parts crit in
+          let expected = tpartition a lim zoff [] start items in
+          let fixed = fixed_name_part c.c_spec [] in
+          let ordered = reader_order c.c_spec fixed (cur_infix_of c) files in
+          let n = List.length expected in
+          if List.length ordered <> n then "fail file-count" else
+          let bad = ref "" in
+          List.iteri (fun i (((nm, _), _), (st, _)) ->
+              if (i < n - 1 || direct) && (start = None || i > 0) then
+                match full_infix c.c_spec fixed nm with
+                | None -> bad := "no-infix"
+                | Some inf ->
+                  let (main, _) = split_restart inf in
+                  if main <> expected_ts_infix c.c_utc zoff fmt st then
+                    bad := Printf.sprintf "file %s does not carry the start time of its content (%s)" (hex_of_bytes nm)
+                        (hex_of_bytes (expected_ts_infix c.c_utc zoff fmt st)))
+            (List.combine ordered expected);
+          if !bad = "" then "pass" else "fail " ^ !bad))
+
 let flw_oracle (prop : string) (case_toks : string list) (obs : string list) : string =
   let (pre, ops) = split_at_semicolon [] case_toks in
   let ann = annotations pre in
   let ops = List.map Flw_driver.op_of_string (List.filter (fun s -> s <> "") ops) in
   (* leading external creations (the start state) are allowed before B *)
   let rec strip = function (OExtCreate _ | OExtMkdir _) :: r -> strip r | l -> l in
+  if prop = "C09" then
+    (match last_snapshot obs, case_toks with
+     | Some files, t0 :: off :: _ -> c09_oracle (int_of_string t0) (int_of_string off) ann ops files
+     | _ -> "skip shape")
+  else
   match items_of (strip ops), last_snapshot obs with
   | Some (c, items), Some files ->
     let start = match List.assoc_opt "start" ann with Some h -> Some (bytes_of_hex h) | None -> None in
